@@ -14,9 +14,10 @@ var regTypes = map[string]reflect.Type{
 	"regint":      reflect.TypeOf(RegInt(0)),
 	"regstruct":   reflect.TypeOf(RegStruct{}),
 	"regstringer": reflect.TypeOf(RegStringer("")),
+	"regslice":    reflect.TypeOf(RegSlice(nil)),
 }
 
-var regKindsAll = []string{"regstr", "regint", "regstruct", "regstringer"}
+var regKindsAll = []string{"regstr", "regint", "regstruct", "regstringer", "regslice"}
 
 // hookLog records the calls of the installed error hook.
 type hookCall struct {
